@@ -107,9 +107,10 @@ class OSMRoadNetwork(RoadNetwork):
 
         for _, node_data in graph.nodes(data=True):
             # Replace lat/lon with geoid
+            # geo_to_h3 takes (lat, lng); in the graph "y" is the latitude and "x" the longitude
             node_data["geoid"] = h3.geo_to_h3(
-                node_data.get("x", node_data.get("lat")),
-                node_data.get("y", node_data.get("lon")),
+                node_data.get("y", node_data.get("lat")),
+                node_data.get("x", node_data.get("lon")),
                 sim_h3_resolution,
             )
             for key in ["x", "y", "lat", "lon"]:
